@@ -2585,27 +2585,52 @@ func genGlobalVarDecl(nodes []*node, sc *scope) (*node, error) {
 }
 
 func getVarDependencies(nod *node, sc *scope) (deps []*node) {
-	nod.Walk(func(n *node) bool {
-		if n.kind != identExpr {
-			return true
-		}
-		// Process ident nodes, and avoid false dependencies.
-		if n.anc.kind == selectorExpr && childPos(n) == 1 {
+	// References to functions and methods are followed in their bodies, as
+	// required by the Go specification for package initialization.
+	seen := map[*node]bool{}
+	var walk func(root *node, top bool)
+	walk = func(root *node, top bool) {
+		root.Walk(func(n *node) bool {
+			if n.kind == selectorExpr {
+				if m, ok := n.val.(*node); ok && m != nil && m.kind == funcDecl && !seen[m] {
+					// Reference to a method.
+					seen[m] = true
+					walk(m, false)
+				}
+				return true
+			}
+			if n.kind != identExpr {
+				return true
+			}
+			// Process ident nodes, and avoid false dependencies.
+			if n.anc.kind == selectorExpr && childPos(n) == 1 {
+				return false
+			}
+			if n.ident == "_" {
+				return false
+			}
+			sym := n.sym
+			if sym == nil {
+				if !top {
+					// Not resolved by cfg: not a reference to a global symbol.
+					return false
+				}
+				var ok bool
+				if sym, _, ok = sc.lookup(n.ident); !ok {
+					return false
+				}
+			}
+			switch {
+			case sym.kind == varSym && sym.global && sym.node != nod:
+				deps = append(deps, sym.node)
+			case sym.kind == funcSym && sym.node != nil && sym.node.kind == funcDecl && !seen[sym.node]:
+				seen[sym.node] = true
+				walk(sym.node, false)
+			}
 			return false
-		}
-		if n.ident == "_" {
-			return false
-		}
-		sym, _, ok := sc.lookup(n.ident)
-		if !ok {
-			return false
-		}
-		if sym.kind != varSym || !sym.global || sym.node == nod {
-			return false
-		}
-		deps = append(deps, sym.node)
-		return false
-	}, nil)
+		}, nil)
+	}
+	walk(nod, true)
 	return deps
 }
 
